@@ -206,7 +206,14 @@ class whiledo(ifthenelse):
                 test_result = self.evaluate(tex, [expanded])
             if not test_result.state:
                 break
-            tok += tex.expandTokens(a['operations'], parentNode=self.parentNode)
+            # The body is not a group: what it defines is still there for
+            # the next test and after the loop, so it is processed without
+            # the scope that expandTokens() would open
+            sub = type(tex)(ownerDocument=self.ownerDocument)
+            sub.pushTokens(a['operations'])
+            frag = self.ownerDocument.createDocumentFragment()
+            frag.parentNode = self.parentNode
+            tok += sub.parse(frag)
         return tok
 
 
